@@ -10,3 +10,9 @@ func init() {
 		return c16.Run(c16.Config{Module: module, Seed: seed, Tier: tier, Driver: d, Replay: replay})
 	}
 }
+
+func init() {
+	runners["C03W"] = func(module string, seed int64, tier string, d *hx.Driver, replay []string) *hx.Result {
+		return c16.RunRequestShapes(c16.Config{Module: module, Seed: seed, Tier: tier, Driver: d, Replay: replay})
+	}
+}
